@@ -18,7 +18,7 @@ import (
 func main() {
 	reg := map[string]harness.Harness{
 		"C01": harness.External{Property: "C01", Ver: "c01-v1", M: plat.C01Meta(), Quick: 320, Thor: 16000, Bin: "plat.test", TestName: "TestJob", Classify: plat.ClassifyExitC01},
-		"C02": harness.External{Property: "C02", Ver: "c02-v1", M: plat.C02Meta(), Quick: 240, Thor: 12000, Bin: "plat.test", TestName: "TestJob", Classify: plat.ClassifyExit},
+		"C02": harness.External{Property: "C02", Ver: "c02-v2", M: plat.C02Meta(), Quick: 240, Thor: 12000, Bin: "plat.test", TestName: "TestJob", Classify: plat.ClassifyExit},
 		"C05": c05.H{Child: harness.External{Property: "C05", ChildKey: "C11", Ver: "c05-child", M: plat.C11Meta(), Bin: "plat.test", TestName: "TestJob", Classify: plat.ClassifyExit}},
 		"C08": harness.Multi{Property: "C08", Parts: []harness.Harness{
 			harness.External{Property: "C08", Ver: "c08-plat-v1", M: plat.C08Meta(), Quick: 400, Thor: 20000, Bin: "plat.test", TestName: "TestJob", Classify: plat.ClassifyExit},
@@ -32,7 +32,10 @@ func main() {
 		"C15": c15.H{},
 		"C16": c16.H{},
 		"C17": c17.H{},
-		"C18": c18.Ring{},
+		"C18": harness.Multi{Property: "C18", Parts: []harness.Harness{
+			c18.Ring{},
+			harness.External{Property: "C18", Ver: "c18-plat-v1", M: plat.C18Meta(), Quick: 300, Thor: 15000, Bin: "plat.test", TestName: "TestJob", Classify: plat.ClassifyExit},
+		}, Weights: []int{4, 1}, Quick: 1800, Thor: 120000},
 		"C19": c19.Ring{},
 		"C20": c20.H{},
 	}
